@@ -498,6 +498,13 @@ class Machine(Interp):
         cur, j = c.generic[-1]
         ok1, _ = c.valid(r == j)
         ok2, _ = c.valid(zint(seg.length) == zint(cur.length))
+        if ok2 and not ok1 and c.valid(r == zint(seg.length) - 1 - j)[0]:
+            # mirrored: round j of the loop updates element len-1-j (a bijection of the run)
+            if not hasattr(c, "seg_updated"):
+                c.seg_updated = set()
+            c.seg_updated.add((id(lst), id(seg)))
+            c.effects.append(("segupdate", lst, seg, v, j, "mirror"))
+            return
         if not (ok1 and ok2):
             # may become aligned once a loop-carried counter is recognised as affine
             # (decided at the end of the round): record, and fail there if it persists
@@ -785,7 +792,7 @@ class Machine(Interp):
             if all(isinstance(h, Seg) for h in heads):
                 n0 = zint(heads[0].length)
                 same = all(c.valid(zint(h.length) == n0)[0] for h in heads[1:])
-                if not same and len(heads) == 2 and all(len(h.items) == 1 for h in heads) and heads[0].rev == heads[1].rev \
+                if not same and len(heads) == 2 and all(len(h.items) == 1 for h in heads) \
                         and all(len(l) == 1 for l in lists):
                     # zip stops at the shorter one (both are the last items of their lists)
                     a_, b_ = heads
@@ -796,8 +803,11 @@ class Machine(Interp):
                     else:
                         raise Unsupported("zip over segments whose lengths cannot be ordered")
                     js = short.jvar
-                    shift = (zint(long_.length) - zint(short.length)) if short.rev else 0
-                    lv = ops.subst_j(long_.items[0], long_.jvar, js + shift)
+                    # position of the short run's round js in iteration order, and the long
+                    # run's round at that position
+                    k_ = (zint(short.length) - 1 - js) if short.rev else js
+                    jl = (zint(long_.length) - 1 - k_) if long_.rev else k_
+                    lv = ops.subst_j(long_.items[0], long_.jvar, z3.simplify(jl))
                     pair = (lv, short.items[0]) if swap else (short.items[0], lv)
                     out.append(("seg", Seg(("zip", a_.tag, b_.tag), short.length, js, [pair], short.rev), None))
                     return out
@@ -977,8 +987,11 @@ class Machine(Interp):
             elif kind == "segupdate-unaligned":
                 raise Unsupported(f"loop at {key}: store at a symbolic list position that is not aligned with the round")
             elif kind == "segupdate":
-                _, _, useg, newv, jcur = e
-                useg.items[0] = ops.subst_j(newv, jcur, useg.jvar) if not useg.jvar.eq(jcur) else newv
+                _, _, useg, newv, jcur = e[:5]
+                if len(e) > 5:
+                    useg.items[0] = ops.subst_j(newv, jcur, z3.simplify(zint(useg.length) - 1 - useg.jvar))
+                else:
+                    useg.items[0] = ops.subst_j(newv, jcur, useg.jvar) if not useg.jvar.eq(jcur) else newv
                 getattr(c, "seg_updated", set()).discard((id(obj), id(useg)))
             elif kind == "container" and e[2] in ("add", "update") and not contains_symbolic(e[3], 2):
                 # adding the same concrete elements every round is idempotent
